@@ -17,6 +17,7 @@ package message
 import (
 	"encoding/binary"
 	"fmt"
+	"sync/atomic"
 )
 
 var (
@@ -134,6 +135,17 @@ func (h *header) PacketID() uint16 {
 	}
 
 	return 0
+}
+
+// nextPacketID returns the next automatically assigned packet identifier. Zero
+// is not a valid identifier (and SetPacketID ignores it), so it is skipped when
+// the counter wraps around.
+func nextPacketID() uint16 {
+	for {
+		if id := uint16(atomic.AddUint64(&gPacketID, 1) & 0xffff); id != 0 {
+			return id
+		}
+	}
 }
 
 // SetPacketID sets the ID of the packet.
